@@ -37,13 +37,32 @@ def bounded(tier, seed):
             if P.fmt(out, plaintext=True, width=w) != out:
                 pv.append({"clause": "idempotent", "input": {"text": d, "options": {"plaintext": True, "width": w}, "nested_list": False,
                                                               "semantic": False}, "got": P.fmt(out, plaintext=True, width=w)[:300], "want": out[:300]})
+    # typography-rich prose: quotes, apostrophes and dot runs next to soft breaks, all typography on, many widths
+    TYPO = ["it's", "John's", "dogs'", "don't", "word", "and", "then", "wait...", "so...", "end...", "(really)", "(so.)", "hmm", "ok.",
+            "Really?", "plain", "words", "here"]
+    QUOTED = ['"hello world"', "'single quoted'", '"a"', "'b'"]
+    for i in range(30 if tier == "quick" else 300):
+        toks = []
+        for _ in range(rnd.choice((6, 10, 16))):
+            t = rnd.choice(QUOTED) if rnd.random() < 0.15 and (not toks or toks[-1] not in QUOTED) else rnd.choice(TYPO)
+            toks.append(t)
+        text = "".join(t if k == 0 else (("\n" if rnd.random() < 0.35 else " ") + t) for k, t in enumerate(toks)) + "\n"
+        for w in (8, 14, 22, 31, 47, 88):
+            for sm in (False, True):
+                o = dict(width=w, semantic=sm, smartquotes=True, ellipses=True, cleanups=False)
+                out = P.fmt(text, **o)
+                pe += 1
+                again = P.fmt(out, **o)
+                if again != out:
+                    pv.append({"clause": "idempotent", "input": {"text": text, "options": o, "nested_list": False, "typography_prose": True},
+                               "got": again[:600], "want": out[:600]})
     for v in r1["violations"] + r2["violations"]:
         v["input"]["options"] = {k: (x.value if hasattr(x, "value") else x) for k, x in v["input"]["options"].items()}
     return {"evaluations": r1["evaluations"] + r2["evaluations"] + pe,
             "distinct_nontrivial": r1["distinct_nontrivial"] + r2["distinct_nontrivial"],
             "violations": r1["violations"] + r2["violations"] + pv, "samples": r1["samples"],
             "rule": "seeded documents x widths {88,20,6,0} x both wrap modes x seeded typography/cleanup/list-spacing bits, plus "
-                    "plaintext mode: second pass is byte-identical; distinct = distinct first-pass outputs",
+                    "plaintext mode, plus typography-rich prose (quotes, apostrophes, dot runs next to soft breaks) with smart quotes and ellipses on at 6 widths x both modes: second pass is byte-identical; distinct = distinct first-pass outputs",
             "exhaustive": False, "bound": "%d documents per mode" % n}
 
 
